@@ -179,6 +179,35 @@ fn main() {
             run.violation(v);
         }
     }
+    // zero-sized and large element types: the sampler must not depend on size_of::<T>()
+    {
+        let mut n_gen = 0u64;
+        macro_rules! generic_probe {
+            ($t:ty, $mk:expr, $name:expr) => {
+                for k in [1usize, 3, 8] {
+                    n_gen += 1;
+                    let r = mccore::panics::catch(|| {
+                        let mut r: ReservoirSampling<$t, PlainRng> = ReservoirSampling::new(k, PlainRng(0x9E3779B97F4A7C15));
+                        for j in 0..40usize {
+                            r.add($mk(j));
+                            assert!(r.reservoir().len() == (j + 1).min(k) && r.i() == j + 1 && !r.is_empty(), "len {} i {} after {} adds", r.reservoir().len(), r.i(), j + 1);
+                        }
+                        r.clear();
+                        r.extend((0..5usize).map($mk));
+                        assert!(r.reservoir().len() == 5.min(k) && r.i() == 5, "after clear + extend of 5: len {} i {}", r.reservoir().len(), r.i());
+                    });
+                    if let Err(p) = r {
+                        run.violation(Viol { property: "C18".into(), signature: format!("reservoir element type {}", $name), message: format!("ReservoirSampling<{}> k={}: {}", $name, k, p), replay: json!({"structure": "ReservoirSampling", "element_type": $name, "k": k, "stream": "40 adds, clear, extend of 5"}) });
+                        break;
+                    }
+                }
+            };
+        }
+        generic_probe!((), |_j: usize| (), "()");
+        generic_probe!([u64; 64], |j: usize| [j as u64; 64], "[u64; 64]");
+        generic_probe!(String, |j: usize| format!("item {}", j), "String");
+        run.ev.set("element_type_probes", json!(n_gen));
+    }
     let jobs: Vec<(usize, usize)> = if thorough { vec![(1, 20), (2, 22), (3, 24), (4, 25), (5, 24)] } else { vec![(1, 16), (2, 18), (3, 20), (4, 21)] };
     let res = par_map(&jobs, n_threads(), |&(k, horizon)| {
         let m = M { k, horizon, units: unit_alphabet() };
